@@ -3,14 +3,18 @@ package props
 import (
 	"bufio"
 	"bytes"
+	"context"
 	"encoding/json"
 	"fmt"
 	"io"
 	"net/http"
 	"net/http/httptest"
 	"net/url"
+	"os"
+	"path/filepath"
 	"sort"
 	"strings"
+	"time"
 	"unicode/utf8"
 
 	"github.com/go-openapi/loads"
@@ -482,6 +486,73 @@ func (b c04BodyBinder) BindRequest(r *http.Request, route *middleware.MatchedRou
 	return nil
 }
 
+// c04Sum is a checksum of the case: everything Exec chooses on its own is a function of the input
+// fields, so a case replays identically.
+func c04Sum(fields ...string) int {
+	h := uint32(2166136261)
+	for _, f := range fields {
+		for i := 0; i < len(f); i++ {
+			h = (h ^ uint32(f[i])) * 16777619
+		}
+		h = (h ^ 0xff) * 16777619
+	}
+	return int(h>>3) & 0xfffffff
+}
+
+// c04Knobs: the public ways a caller can set up the SAME call. None of them changes what the
+// caller supplies or what the handler should get.
+type c04Knobs struct {
+	construct int  // 0 client.New + Runtime.Transport; 1 client.NewWithClient(preset http.Client); 2 ClientOperation.Client; 3 New + EnableConnectionReuse
+	submit    int  // 0 Runtime.Submit; 1 Runtime.WithOpenTracing().Submit; 2 Runtime.WithOpenTelemetry().Submit
+	context   int  // 0 none; 1 ClientOperation.Context with a value; 2 Runtime.Context = nil; 3 ClientOperation.Context with a far deadline
+	debug     bool // Runtime.SetDebug(true): request and response are dumped (to a silent logger)
+	defAuth   bool // the auth writer is Runtime.DefaultAuthentication instead of ClientOperation.AuthInfo
+	schemes   int  // 0 {"http"} for both; 1 runtime {"https","http"} (https is preferred; the wire does not care); 2 runtime none, operation {"http"}
+	reverse   bool // the request writer sets body, files, form, header, query, path — in that order
+	payload   int  // which Go type carries the body (c04Payload)
+	file      int  // which implementation of runtime.NamedReadCloser carries a file (c04MakeFile)
+	emptyNil  bool // a parameter without values is set with an empty non-nil slice instead of nil
+	staticQ   int  // 1: the base path carries a static query parameter; 2: the path pattern does
+	realWire  bool // a real net/http server and the default transport over TCP instead of the in-memory wire
+	timeout   bool // the request writer sets a (generous) timeout
+	getters   bool // the body-reading auth writer also reads every other getter of runtime.ClientRequest
+}
+
+func c04KnobsOf(sum int) c04Knobs {
+	k := c04Knobs{}
+	k.construct = []int{0, 0, 1, 2, 3}[sum%5]
+	k.submit = []int{0, 0, 0, 1, 2}[(sum/5)%5]
+	k.context = (sum / 25) % 4
+	k.debug = (sum/100)%6 == 0
+	k.defAuth = (sum/600)%2 == 1
+	k.schemes = (sum / 1200) % 3
+	k.reverse = (sum/3600)%2 == 1
+	k.payload = (sum / 7200) % 6
+	k.file = (sum / 43200) % 4
+	k.emptyNil = (sum/172800)%2 == 1
+	k.staticQ = []int{0, 0, 0, 0, 0, 0, 1, 2}[(sum/345600)%8]
+	k.realWire = (sum/2764800)%8 == 0
+	k.timeout = (sum/22118400)%6 == 0
+	k.getters = (sum/132710400)%2 == 1
+	if k.submit != 0 && k.context == 0 {
+		k.context = 1 // the tracing transports only do something for an operation with a context
+	}
+	if k.realWire {
+		k.schemes = 0
+	}
+	return k
+}
+
+type c04Quiet struct{}
+
+func (c04Quiet) Printf(string, ...interface{}) {}
+func (c04Quiet) Debugf(string, ...interface{}) {}
+
+type c04CtxKey struct{}
+
+// c04Static is the name of the static query parameter of knob staticQ (no generated name)
+const c04StaticQ = "zz-static"
+
 // the wire: Request.Write -> http.ReadRequest -> handler -> Response.Write -> http.ReadResponse
 type c04Wire struct{ h http.Handler }
 
@@ -511,53 +582,198 @@ type c04File struct {
 func (f c04File) Name() string { return f.name }
 func (f c04File) Close() error { return nil }
 
-type c04Writer struct{ c *c04Case }
+// c04PlainFile has nothing but what the interface asks for (no Len, no Seek)
+type c04PlainFile struct {
+	name string
+	r    io.Reader
+}
 
-func (w c04Writer) WriteToRequest(req runtime.ClientRequest, _ strfmt.Registry) error {
-	c := w.c
-	for i, n := range c.pnames {
-		if err := req.SetPathParam(n, c.pvals[i]); err != nil {
-			return err
+func (f *c04PlainFile) Name() string               { return f.name }
+func (f *c04PlainFile) Read(p []byte) (int, error) { return f.r.Read(p) }
+func (f *c04PlainFile) Close() error               { return nil }
+
+// c04TypedFile says itself what its media type is (the client then does not sniff)
+type c04TypedFile struct{ c04PlainFile }
+
+func (f *c04TypedFile) ContentType() string { return "application/x-c04" }
+
+// c04MakeFile: one of the implementations of runtime.NamedReadCloser a caller may hand over
+func c04MakeFile(kind int, name, content string, tmp *[]string) runtime.NamedReadCloser {
+	switch kind {
+	case 1:
+		return &c04PlainFile{name, iotest1{strings.NewReader(content)}}
+	case 2:
+		return &c04TypedFile{c04PlainFile{name, strings.NewReader(content)}}
+	case 3:
+		// a real *os.File (its Name() is a full path: the client sends the base name)
+		dir, err := os.MkdirTemp("", "c04")
+		if err != nil {
+			panic(err)
 		}
-	}
-	for i, k := range c.qkeys {
-		if err := req.SetQueryParam(k, c.qvals[i]...); err != nil {
-			return err
+		*tmp = append(*tmp, dir)
+		if err := os.WriteFile(filepath.Join(dir, name), []byte(content), 0o600); err != nil {
+			panic(err)
 		}
-	}
-	for i, k := range c.hnames {
-		if err := req.SetHeaderParam(k, c.hvals[i]); err != nil {
-			return err
+		f, err := os.Open(filepath.Join(dir, name))
+		if err != nil {
+			panic(err)
 		}
+		return f
 	}
-	for i, k := range c.fkeys {
-		if err := req.SetFormParam(k, c.fvals[i]...); err != nil {
-			return err
-		}
+	return c04File{name, bytes.NewReader([]byte(content))}
+}
+
+// iotest1 delivers at most 7 bytes per Read (short reads are legal for an io.Reader)
+type iotest1 struct{ r io.Reader }
+
+func (o iotest1) Read(p []byte) (int, error) {
+	if len(p) > 7 {
+		p = p[:7]
 	}
-	for i, k := range c.filenames {
-		if err := req.SetFileParam(k, c04File{"f" + proto.N(i) + ".bin", bytes.NewReader([]byte(c.files[i]))}); err != nil {
-			return err
-		}
-	}
+	return o.r.Read(p)
+}
+
+type c04Stringer string
+
+func (s c04Stringer) String() string { return string(s) }
+
+// c04Payload: the body as one of the Go values a caller may hand to SetBodyParam for this kind
+func c04Payload(c *c04Case, kind int, tmp *[]string) interface{} {
 	switch c.bkind {
 	case "j":
+		if c.body == c04ZeroJSON {
+			// the same document as a typed value whose fields are all zero (what generated clients send)
+			if kind%2 == 1 {
+				return &c04Zero{}
+			}
+			return c04Zero{}
+		}
 		var v interface{}
 		if err := json.Unmarshal([]byte(c.body), &v); err != nil {
 			panic("C04: body is not JSON")
 		}
-		if c.body == c04ZeroJSON {
-			// the same document as a typed value whose fields are all zero (what generated clients send)
-			return req.SetBodyParam(c04Zero{})
+		switch kind % 3 {
+		case 1:
+			return json.RawMessage(c.body)
+		case 2:
+			m := v.(map[string]interface{})
+			return &m
 		}
-		return req.SetBodyParam(v)
+		return v
 	case "t":
-		return req.SetBodyParam(c.body)
+		// (a []byte is not text for the text producer: it is rendered as a JSON value)
+		switch kind % 3 {
+		case 1:
+			return &c.body
+		case 2:
+			return c04Stringer(c.body)
+		}
+		return c.body
 	case "b":
-		return req.SetBodyParam([]byte(c.body))
+		if kind%2 == 1 {
+			return c.body // the byte stream producer takes a string too
+		}
+		return []byte(c.body)
 	case "r":
-		// an io.Reader payload is streamed (chunked on the wire)
-		return req.SetBodyParam(io.NopCloser(strings.NewReader(c.body)))
+		// an io.Reader payload is streamed; readers net/http knows the length of are sent with a
+		// Content-Length, the others chunked
+		switch kind {
+		case 1:
+			return strings.NewReader(c.body)
+		case 2:
+			return bytes.NewBufferString(c.body)
+		case 3:
+			return iotest1{strings.NewReader(c.body)} // a Reader that is no Closer, short reads
+		case 4:
+			return c04MakeFile(3, "body.bin", c.body, tmp) // a real *os.File
+		case 5:
+			return io.NopCloser(iotest1{bytes.NewReader([]byte(c.body))})
+		}
+		return io.NopCloser(strings.NewReader(c.body))
+	}
+	return nil
+}
+
+type c04Writer struct {
+	c   *c04Case
+	k   c04Knobs
+	tmp *[]string
+}
+
+func (w c04Writer) WriteToRequest(req runtime.ClientRequest, _ strfmt.Registry) error {
+	c := w.c
+	vals := func(v []string) []string {
+		if len(v) == 0 && w.k.emptyNil {
+			return []string{}
+		}
+		if len(v) == 0 {
+			return nil
+		}
+		return v
+	}
+	steps := []func() error{
+		func() error {
+			for i, n := range c.pnames {
+				if err := req.SetPathParam(n, c.pvals[i]); err != nil {
+					return err
+				}
+			}
+			return nil
+		},
+		func() error {
+			for i, k := range c.qkeys {
+				if err := req.SetQueryParam(k, vals(c.qvals[i])...); err != nil {
+					return err
+				}
+			}
+			return nil
+		},
+		func() error {
+			for i, k := range c.hnames {
+				if err := req.SetHeaderParam(k, c.hvals[i]); err != nil {
+					return err
+				}
+			}
+			return nil
+		},
+		func() error {
+			for i, k := range c.fkeys {
+				if err := req.SetFormParam(k, vals(c.fvals[i])...); err != nil {
+					return err
+				}
+			}
+			return nil
+		},
+		func() error {
+			for i, k := range c.filenames {
+				if err := req.SetFileParam(k, c04MakeFile(w.k.file, "f"+proto.N(i)+".bin", c.files[i], w.tmp)); err != nil {
+					return err
+				}
+			}
+			return nil
+		},
+		func() error {
+			if c.bkind == "n" {
+				return nil
+			}
+			return req.SetBodyParam(c04Payload(c, w.k.payload, w.tmp))
+		},
+		func() error {
+			if w.k.timeout {
+				return req.SetTimeout(90 * time.Second)
+			}
+			return nil
+		},
+	}
+	if w.k.reverse {
+		for i, j := 0, len(steps)-1; i < j; i, j = i+1, j-1 {
+			steps[i], steps[j] = steps[j], steps[i]
+		}
+	}
+	for _, st := range steps {
+		if err := st(); err != nil {
+			return err
+		}
 	}
 	return nil
 }
@@ -585,8 +801,54 @@ func c04Exec(in []string) []string {
 	seen := &c04Seen{}
 	h := c04Server(c, seen)
 
-	rt := client.New("example.test", c.base, []string{"http"})
-	rt.Transport = c04Wire{h}
+	// ---- the client half, set up one of the equivalent ways (c04Knobs)
+	k := c04KnobsOf(c04Sum(in...))
+	var tmp []string
+	defer func() {
+		for _, d := range tmp {
+			_ = os.RemoveAll(d)
+		}
+	}()
+	host := "example.test"
+	var wire http.RoundTripper = c04Wire{h}
+	if k.realWire {
+		srv := httptest.NewServer(h)
+		defer srv.Close()
+		host = strings.TrimPrefix(srv.URL, "http://")
+		tr := &http.Transport{}
+		defer tr.CloseIdleConnections()
+		wire = tr
+	}
+	base := c.base
+	if k.staticQ == 1 {
+		base += "?" + c04StaticQ + "=1"
+	}
+	rtSchemes := [][]string{{"http"}, {"https", "http"}, nil}[k.schemes]
+	var rt *client.Runtime
+	var opClient *http.Client
+	switch k.construct {
+	case 1:
+		rt = client.NewWithClient(host, base, rtSchemes, &http.Client{Transport: wire})
+	case 2:
+		rt = client.New(host, base, rtSchemes)
+		opClient = &http.Client{Transport: wire}
+	case 3:
+		rt = client.New(host, base, rtSchemes)
+		rt.Transport = wire
+		rt.EnableConnectionReuse()
+	default:
+		rt = client.New(host, base, rtSchemes)
+		rt.Transport = wire
+	}
+	if k.debug {
+		oldDebug, oldLogger := middleware.Debug, middleware.Logger
+		defer func() { middleware.Debug, middleware.Logger = oldDebug, oldLogger }()
+		rt.SetLogger(c04Quiet{})
+		rt.SetDebug(true)
+	}
+	if k.context == 2 {
+		rt.Context = nil
+	}
 	var saw c04ClientSaw
 	reader := runtime.ClientResponseReaderFunc(func(resp runtime.ClientResponse, cons runtime.Consumer) (interface{}, error) {
 		saw.status = resp.Code()
@@ -623,7 +885,18 @@ func c04Exec(in []string) []string {
 	})
 	op := &runtime.ClientOperation{
 		ID: "op" + proto.N(c.op), Method: c04WireMethod(c), PathPattern: c.templates[c.op],
-		Schemes: []string{"http"}, Params: c04Writer{c}, Reader: reader,
+		Schemes: []string{"http"}, Params: c04Writer{c, k, &tmp}, Reader: reader, Client: opClient,
+	}
+	if k.staticQ == 2 {
+		op.PathPattern += "?" + c04StaticQ + "=2"
+	}
+	switch k.context {
+	case 1:
+		op.Context = context.WithValue(context.Background(), c04CtxKey{}, "v")
+	case 3:
+		ctx, cancel := context.WithTimeout(context.Background(), 90*time.Second)
+		defer cancel()
+		op.Context = ctx
 	}
 	switch {
 	case c.fkind != "n":
@@ -641,10 +914,25 @@ func c04Exec(in []string) []string {
 		// a writer that asks for the body (forces the buffered copy of streamed bodies)
 		op.AuthInfo = runtime.ClientAuthInfoWriterFunc(func(req runtime.ClientRequest, _ strfmt.Registry) error {
 			_ = req.GetBody()
+			if k.getters {
+				// a signing writer looks at everything; looking changes nothing
+				_, _, _, _, _, _ = req.GetMethod(), req.GetPath(), req.GetQueryParams(), req.GetHeaderParams(), req.GetBodyParam(), req.GetFileParam()
+				_ = req.GetBody()
+			}
 			return req.SetHeaderParam(c04AuthHeader, "got-body")
 		})
 	}
-	if _, err := rt.Submit(op); err != nil {
+	if k.defAuth && op.AuthInfo != nil {
+		rt.DefaultAuthentication, op.AuthInfo = op.AuthInfo, nil
+	}
+	var transport runtime.ClientTransport = rt
+	switch k.submit {
+	case 1:
+		transport = rt.WithOpenTracing()
+	case 2:
+		transport = rt.WithOpenTelemetry()
+	}
+	if _, err := transport.Submit(op); err != nil {
 		return []string{"CERR", proto.B(err.Error())}
 	}
 
@@ -817,9 +1105,10 @@ var (
 	c04FNames  = []string{"f", "field", "g h", "f&=", "f\xc3\xa9", "F", "f[]"}
 	c04FileN   = []string{"up", "file", "doc 1"}
 	c04Bounds  = []string{"0", "-1", "9223372036854775807", "-9223372036854775808", "18446744073709551616", "1e400", "007", "3.14", "NaN", "true", "null"}
-	c04Methods = []string{"get", "post", "put", "patch", "delete", "options", "GET", "Post"}
+	c04Methods = []string{"get", "post", "put", "patch", "delete", "options", "GET", "Post", "head", "HEAD", "DELETE", "Options", "pAtCh", "Put"}
 	c04BodyM   = []string{"post", "put", "patch", "delete", "POST", "Put"}
-	c04Status  = []int{200, 200, 200, 201, 202, 203, 204, 299, 304, 400, 401, 404, 409, 418, 422, 500, 503}
+	c04Status  = []int{200, 200, 200, 201, 202, 203, 204, 299, 304, 400, 401, 404, 409, 418, 422, 500, 503,
+		200, 200, 204, 205, 206, 207, 226, 250, 402, 403, 405, 406, 410, 415, 429, 451, 499, 501, 502, 504, 511, 599}
 )
 
 // arbitrary value for a path/query/form position
@@ -960,6 +1249,9 @@ func c04Blob(r *proto.Rng, tier string) string {
 func c04GenCase(r *proto.Rng, tier string) *c04Case {
 	c := &c04Case{fkind: "n", bkind: "n", rkind: "n", auth: "0", rstatus: 200}
 	c.base = r.Pick("/", "", "/api", "/api/", "/v1/base", "/a")
+	if r.Chance(1, 10) {
+		c.base = r.Pick("/a/b/c/", "/api/v2/", "/v1/base/", "/~u", "/x.y/z")
+	}
 	nops := 1 + r.Intn(3)
 	if tier == "thorough" && r.Chance(1, 4) {
 		nops = 4 + r.Intn(6)
